@@ -200,6 +200,11 @@ fn on_pending(w: &mut World, o: &ExecOpts, started: u64) -> Pend {
         return Pend::Cancel;
     }
     let now = clock::now();
+    if std::mem::replace(&mut w.cancel_once, false) && o.cancellable {
+        w.kind(48);
+        w.log(|| "app cancels the operation at this Pending".to_string());
+        return Pend::Cancel;
+    }
     if w.force_cancel.is_some() {
         w.kind(47);
         w.log(|| "fault enumeration: the operation is cancelled at this I/O call".to_string());
@@ -638,6 +643,7 @@ pub struct Ctl<'s, 'b> {
 
 fn label(w: &mut World, l: &'static str) {
     w.op_label = l;
+    w.op_start_t = clock::now();
     w.offered_now.clear();
     *w.stats.ops.entry(l).or_insert(0) += 1;
     w.kind(50 + (crate::util::fnv(l.as_bytes()) % 40) as u8);
@@ -1381,6 +1387,24 @@ pub fn do_wait(conn: &mut Conn<'_, '_>, kind: Wait, opts: Option<ExecOpts>) -> R
                     format!("inbound PUBLISH {t} was consumed completely but {opname} returned {}", res.name()),
                 );
                 w.conns[cur].expect_deliver.clear();
+            }
+        }
+        // C10 (3'), every profile: a poll/recv/drive that *starts* after the round-trip bound of
+        // an unanswered PINGREQ has passed finds the timeout due before it does anything else
+        if !matches!(res, Res::Disconnected | Res::Transport(_) | Res::InvalidPacket) && w.conns[cur].established && !w.cut {
+            if let Some(t0) = w.conns[cur].pingreq_outstanding {
+                if w.op_start_t > t0 + 5 * US_PER_S + 2 * US_PER_MS {
+                    w.violate(
+                        "C10",
+                        format!("keepalive-timeout-missed/operation-started-after-the-bound/after={}", res.name()),
+                        format!(
+                            "PINGREQ completed (flushed) at t={t0} is unanswered; {opname} was called at t={} - after the 5 s bound - and returned {} instead of Disconnected",
+                            w.op_start_t,
+                            res.name()
+                        ),
+                    );
+                    w.conns[cur].pingreq_outstanding = None;
+                }
             }
         }
         // C10 (3): an unanswered PINGREQ must end a continuous wait at the 5 s bound
